@@ -18,6 +18,9 @@
 import YashModel.Expansion.Lemmas
 import YashModel.Expansion.FieldLemmas
 import YashModel.Expansion.ReadLemmas
+import YashModel.Expansion.PipelineLemmas
+import YashModel.Expansion.QuoteLemmas
+import YashModel.Expansion.TrimLemmas
 namespace YashModel.Expansion
 
 /-! ## Field splitting -/
@@ -125,33 +128,8 @@ example : ∀ c ∈ quoteField (toField "a b".toList),
 /-- ★ `Phrase::append` denotes concatenation of field lists where the last field of the left
     operand is glued to the first field of the right one — for all nine shape combinations. -/
 theorem append_denote (a b : Phrase) :
-    (a.append b).toFields = joinFields a.toFields b.toFields := by
-  cases a with
-  | char l =>
-    cases b with
-    | char r => simp [Phrase.append, Phrase.toFields, joinFields]
-    | field r => simp [Phrase.append, Phrase.toFields, joinFields]
-    | full rs => cases rs <;> simp [Phrase.append, Phrase.toFields, joinFields]
-  | field l =>
-    cases b with
-    | char r => simp [Phrase.append, Phrase.toFields, joinFields]
-    | field r => simp [Phrase.append, Phrase.toFields, joinFields]
-    | full rs => cases rs <;> simp [Phrase.append, Phrase.toFields, joinFields]
-  | full ls =>
-    cases ls with
-    | nil =>
-      cases b with
-      | char r => simp [Phrase.append, Phrase.toFields, joinFields]
-      | field r => simp [Phrase.append, Phrase.toFields, joinFields]
-      | full rs => cases rs <;> simp [Phrase.append, Phrase.toFields, joinFields]
-    | cons lf ls =>
-      cases b with
-      | char r => simp [Phrase.append, Phrase.toFields, joinFields_cons_cons]
-      | field r => simp [Phrase.append, Phrase.toFields, joinFields_cons_cons]
-      | full rs =>
-        cases rs with
-        | nil => simp [Phrase.append, Phrase.toFields, joinFields_nil_right]
-        | cons rf rs => simp [Phrase.append, Phrase.toFields, joinFields_cons_cons]
+    (a.append b).toFields = joinFields a.toFields b.toFields :=
+  append_toFields a b
 
 /-- ☆ Appending is associative on denotations: the fold of `impl Expand for [T]` over the units of
     a word gives the same fields however the partial results are grouped. -/
@@ -387,6 +365,293 @@ theorem single_quote_exact (env : Env) (s : List Char) :
     · subst hd; simp [quotedLit]
     · subst hc; simp [quoteChar]
 
+/-! ## The whole pipeline against the declarative POSIX expansion -/
+
+/-- ★★ Initial expansion: for every word of the modelled fragment (literals, backslashes, `'…'`,
+    `$'…'`, `"…"`, `$p`, `${p}`, `${#p}`, the eight switches, the four trims, all nested to any
+    depth), every environment and both splitting contexts, the fields the implementation's
+    `Phrase` denotes, the environment it leaves (assignments by `${p=w}`) and the error it raises
+    are those of the declarative expansion `posixWord` (fields as lists, adjacent units glued
+    last-to-first, double-quoted content expanded in a non-splitting context whatever surrounds the
+    quotes and followed by units expanded in the surrounding context again, `$*` joined exactly
+    where no splitting will happen, switches by the XCU 2.6.2 table, `nounset` only in the
+    switch-less forms). -/
+theorem initial_expansion_eq_posix (w : Word) (env : Env) (willSplit : Bool) :
+    den (expandWord env willSplit w) = posixWord env willSplit w :=
+  word_den w env willSplit
+
+/-- ★★ End to end, the function the driver runs for a command argument: `expand_word_multiple`
+    = declarative initial expansion → recursive POSIX splitter on every field under the IFS in
+    force after the expansion → quote removal.  Every word, every environment, every IFS. -/
+theorem expandWordMultiple_eq_posix (env : Env) (w : Word) :
+    expandWordMultiple env w = posixExpandArg env w := by
+  rw [expandWordMultiple_eq_spec]
+  unfold specExpandWordMultiple posixExpandArg
+  have h := word_den w env true
+  rcases hx : expandWord env true w with ⟨env', r⟩
+  rw [hx] at h
+  cases r with
+  | error e => simp only [den_error] at h; simp [← h]
+  | ok ph => simp only [den_ok] at h; simp [← h]
+
+/-- … for word lists (`expand_words`: arguments, `for` lists, array assignments) … -/
+theorem expandWords_eq_posix (ws : List Word) :
+    ∀ env : Env, expandWords env ws = posixExpandArgs env ws := by
+  induction ws with
+  | nil => intro env; rfl
+  | cons w ws ih =>
+    intro env
+    simp only [expandWords, posixExpandArgs, expandWordMultiple_eq_posix]
+    rcases posixExpandArg env w with ⟨env', r⟩
+    cases r with
+    | error e => rfl
+    | ok fs =>
+      simp only
+      rw [ih env']
+      rfl
+
+/-- … in a single-field context (`expand_word`: scalar assignment, declaration utilities) … -/
+theorem expandWordSingle_eq_posix (env : Env) (w : Word) :
+    expandWordSingle env w = posixExpandSingle env w := by
+  unfold expandWordSingle posixExpandSingle
+  have h := word_den w env true
+  rcases hx : expandWord env true w with ⟨env', r⟩
+  rw [hx] at h
+  cases r with
+  | error e => simp only [den_error] at h; simp [← h]
+  | ok ph => simp only [den_ok] at h; simp [← h, ifsJoin_eq]
+
+/-- … and for here-document contents (`expand_text`). -/
+theorem expandTextJoined_eq_posix (env : Env) (t : Text) :
+    expandTextJoined env t = posixExpandText env t := by
+  unfold expandTextJoined posixExpandText
+  by_cases hn : t.isNil = true
+  · simp [hn, Phrase.oneEmptyField, Phrase.ifsJoin, joinBySep, List.intercalate]
+  · simp only [hn, if_false, Bool.false_eq_true]
+    have h := textGo_den t env true Phrase.zeroFields
+    have hz : Phrase.zeroFields.toFields = [] := rfl
+    rw [hz] at h
+    rcases hx : expandTextGo env true Phrase.zeroFields t with ⟨env', r⟩
+    rw [hx] at h
+    cases r with
+    | error e => simp only [den_error] at h; simp [← h]
+    | ok ph => simp only [den_ok] at h; simp [← h, ifsJoin_eq]
+
+/-! ## Quotes and backslashes protect what they enclose -/
+
+/-- ★★ A word built from literal characters, backslash escapes, `'…'`, `$'…'` and `"…"` (any
+    number of units, in any order, double quotes containing literals and escapes) expands, as a
+    command argument, to exactly one field whose value is exactly the enclosed text — for every
+    IFS and environment: nothing is split, nothing is lost, no quote character survives. -/
+theorem quotes_protect (env : Env) (w : Word) (s : List Char) (hw : w ≠ .nil)
+    (h : w.plain = some s) : expandWordMultiple env w = (env, .ok [s]) := by
+  rw [expandWordMultiple_eq_posix]
+  obtain ⟨cs, hcs, hgood, hne⟩ := word_plain w s h
+  cases w with
+  | nil => exact absurd rfl hw
+  | cons u w' =>
+    have hne' : cs ≠ [] := hne (by simp)
+    unfold posixExpandArg
+    rw [posixWord_pchars env true u w' cs hcs]
+    simp only [List.flatMap_cons, List.flatMap_nil, List.append_nil]
+    rw [← splitWith_eq_specFields]
+    have hs : splitWith env.ifs.classifyAttr cs = [cs] := by
+      have := quoted_never_split env.ifs cs (fun c hc => Or.inr (Or.inr (by simp [hgood.1 c hc])))
+      simpa [splitInto, hne'] using this
+    simp [hs, hgood.2]
+
+/-- … and in a single-field context (assignment) to exactly that text. -/
+theorem quotes_protect_single (env : Env) (w : Word) (s : List Char) (h : w.plain = some s) :
+    expandWordSingle env w = (env, .ok s) := by
+  rw [expandWordSingle_eq_posix]
+  obtain ⟨cs, hcs, hgood, _⟩ := word_plain w s h
+  cases w with
+  | nil =>
+    simp only [Word.pchars, Option.some.injEq] at hcs; subst hcs
+    simp only [Word.plain, Option.some.injEq] at h; subst h
+    simp [posixExpandSingle, posixWord, joinBySep, List.intercalate, removeQuotesAndStrip, skipQuotes, strip]
+  | cons u w' =>
+    unfold posixExpandSingle
+    rw [posixWord_pchars env true u w' cs hcs]
+    simp [joinBySep, List.intercalate, hgood.2]
+
+example : (Word.cons (.unq (.lit 'a')) (.cons (.dq (.cons (.lit ' ') (.cons (.bs '$') .nil)))
+    (.cons (.sq ['b', ' ']) (.cons (.unq (.bs ' ')) .nil)))).plain = some ['a', ' ', '$', 'b', ' ', ' '] := rfl
+
+/-! ## `${p}` and `${#p}` -/
+
+/-- `$p` / `${p}` select the parameter's value and `${#p}` its length in characters (a parameter
+    that is unset, `nounset` being off, counts as empty / `0`) — shown in a single-field context,
+    where no splitting interferes; for every scalar-valued parameter of any kind. -/
+theorem value_and_length_forms (env : Env) (p : Param) (hn : env.nounset = false)
+    (hv : ∀ vs, resolve env p ≠ some (.array vs)) :
+    expandWordSingle env (.cons (.unq (.param p .none)) .nil)
+      = (env, .ok (match resolve env p with | some (.scalar s) => s | _ => [])) ∧
+    expandWordSingle env (.cons (.unq (.param p .length)) .nil)
+      = (env, .ok (match resolve env p with | some (.scalar s) => natToChars s.length | _ => ['0'])) := by
+  have hstar : p ≠ .star := by
+    intro h; subst h; exact hv _ rfl
+  have hs : (p == Param.star) = false := by simpa using hstar
+  cases hr : resolve env p with
+  | none =>
+    simp [expandWordSingle, expandWord, expandWordUnit, expandTextUnit, expandParam, hr, hn,
+      finishParam, hs, intoPhrase, lengthOf, Phrase.oneEmptyField, Phrase.zeroFields, Phrase.append,
+      expandWordGo, Phrase.ifsJoin, removeQuotesAndStrip, skipQuotes, strip, toField, softChar]
+  | some v =>
+    cases v with
+    | array vs => exact absurd hr (hv vs)
+    | scalar s =>
+      have h1 := removeQuotes_toField s
+      have h2 := removeQuotes_toField (natToChars s.length)
+      simp [expandWordSingle, expandWord, expandWordUnit, expandTextUnit, expandParam, hr,
+        finishParam, hs, intoPhrase, lengthOf, Phrase.zeroFields, Phrase.append,
+        expandWordGo, Phrase.ifsJoin, h1, h2]
+
+example : resolve
+    { vars := [("x", { value := some (.scalar ['a', 'b']), readOnly := false })],
+      pos := [], nounset := false, exitStatus := 0, arg0 := [] }
+    (.var "x") = some (.scalar ['a', 'b']) := rfl
+
+/-! ## Trims -/
+
+/-- `${p#w} ${p##w} ${p%w} ${p%%w}`: the value with the shortest (`#`, `%`) / longest (`##`, `%%`)
+    matching prefix (`#`) / suffix (`%`) removed, and the value itself when no prefix / suffix
+    matches.  (`globMatch` is the model's literal/`?`/`*` matcher standing in for yash-fnmatch.) -/
+theorem trimValue_spec (pat : List PatChar) (side : TrimSide) (len : TrimLen) (v : List Char) :
+    (∃ k, k ≤ v.length ∧ trimMatches pat side v k = true ∧
+        trimValue pat side len v = trimRemoved side v k ∧
+        ∀ j, j ≤ v.length → trimMatches pat side v j = true →
+          (len = .shortest → k ≤ j) ∧ (len = .longest → j ≤ k)) ∨
+    ((∀ j, j ≤ v.length → trimMatches pat side v j = false) ∧ trimValue pat side len v = v) := by
+  rw [trimValue_eq]
+  cases len with
+  | shortest =>
+    have h := find_range (trimMatches pat side v) (v.length + 1)
+    simp only [upTo]
+    cases hf : (List.range (v.length + 1)).find? (trimMatches pat side v) with
+    | some k =>
+      rw [hf] at h
+      refine Or.inl ⟨k, by omega, h.1, rfl, ?_⟩
+      intro j _ hm
+      refine ⟨fun _ => ?_, fun hc => nomatch hc⟩
+      rcases Nat.lt_or_ge j k with hlt | hge
+      · have := h.2.2 j hlt; rw [hm] at this; cases this
+      · exact hge
+    | none =>
+      rw [hf] at h
+      exact Or.inr ⟨fun j hj => h j (by omega), rfl⟩
+  | longest =>
+    have h := find_range_rev (trimMatches pat side v) (v.length + 1)
+    simp only [upTo]
+    cases hf : (List.range (v.length + 1)).reverse.find? (trimMatches pat side v) with
+    | some k =>
+      rw [hf] at h
+      refine Or.inl ⟨k, by omega, h.1, rfl, ?_⟩
+      intro j hj hm
+      refine ⟨(fun hc => nomatch hc), fun _ => ?_⟩
+      rcases Nat.lt_or_ge k j with hlt | hge
+      · have := h.2.2 j hlt (by omega); rw [hm] at this; cases this
+      · exact hge
+    | none =>
+      rw [hf] at h
+      exact Or.inr ⟨fun j hj => h j (by omega), rfl⟩
+
+example : trimValue [.normal 'a', .normal '*'] .prefix .longest "abab".toList = [] ∧
+    trimValue [.normal 'a', .normal '*'] .prefix .shortest "abab".toList = "bab".toList ∧
+    trimValue [.normal '*', .normal 'b'] .suffix .shortest "abab".toList = "aba".toList := by decide
+
+/-! ## `nounset` exactly where POSIX says -/
+
+/-- which parameters can be unset at all: a variable without value, a positional parameter beyond
+    the last one (or index 0), `$!` before any asynchronous command — never `$@ $* $# $? $- $$ $0` -/
+theorem resolve_none_iff (env : Env) (p : Param) :
+    resolve env p = none ↔
+      match p with
+      | .var name => env.getValue name = none
+      | .pos 0 => True
+      | .pos (k+1) => env.pos.length ≤ k
+      | .bang => env.lastAsync = 0
+      | _ => False := by
+  cases p with
+  | pos n =>
+    cases n with
+    | zero => simp [resolve]
+    | succ k => simp [resolve]
+  | bang => simp [resolve]
+  | _ => simp [resolve]
+
+/-- ★ `set -u`: a parameter expansion without a switch modifier fails with "unset parameter" if and
+    only if the option is on and the parameter is unset; nothing else about the expansion matters,
+    and the environment is untouched. -/
+theorem nounset_error_iff (env : Env) (ws : Bool) (p : Param) (v : Option Value) :
+    (expandParam env ws p v .none = (env, .error .unsetParameter) ↔ (env.nounset = true ∧ v = none)) ∧
+    (expandParam env ws p v .length = (env, .error .unsetParameter) ↔ (env.nounset = true ∧ v = none)) := by
+  constructor
+  · cases v <;> cases hn : env.nounset <;> simp [expandParam, hn]
+  · cases v <;> cases hn : env.nounset <;> simp [expandParam, hn]
+
+/-- ★ `$@` and `$*` are exempt: with no positional parameters — `nounset` on or off — they expand,
+    unquoted, to zero fields and never to an error (XCU 2.5.2; `"$@"`/`"$*"`: `dquote_at_zero_params`). -/
+theorem at_star_zero_params_unquoted (env : Env) (h : env.pos = []) :
+    expandWordMultiple env (.cons (.unq (.param .at .none)) .nil) = (env, .ok []) ∧
+    expandWordMultiple env (.cons (.unq (.param .star .none)) .nil) = (env, .ok []) := by
+  constructor <;>
+    simp [expandWordMultiple, expandWord, expandWordUnit, expandTextUnit, expandParam, resolve, h,
+      finishParam, intoPhrase, Phrase.zeroFields, Phrase.append, expandWordGo, Phrase.toFields]
+
+/-- `$@ $* $# $? $- $$ $0` are never a `nounset` error, in any form without a switch -/
+theorem special_params_never_unset (env : Env) (ws : Bool) (p : Param)
+    (hp : p = .at ∨ p = .star ∨ p = .num ∨ p = .question ∨ p = .hyphen ∨ p = .dollar ∨ p = .zero) :
+    expandParam env ws p (resolve env p) .none = (env, .ok (finishParam env ws p (resolve env p))) := by
+  rcases hp with h | h | h | h | h | h | h <;> subst h <;> simp [expandParam, resolve]
+
+example : (expandWordMultiple
+    { vars := [], pos := [], nounset := true, exitStatus := 0, arg0 := [] }
+    (.cons (.unq (.param .at .none)) .nil)).2 = .ok [] := by
+  rw [(at_star_zero_params_unquoted _ rfl).1]
+
+/-! ## Double quotes and the splitting context -/
+
+/-- ★ What double quotes enclose is expanded in a non-splitting context whatever context the quotes
+    stand in: the result of a double-quoted unit does not depend on the `will_split` flag around it … -/
+theorem dquote_ignores_context (env : Env) (ws ws' : Bool) (t : Text) :
+    expandWordUnit env ws (.dq t) = expandWordUnit env ws' (.dq t) := by
+  simp only [expandWordUnit]
+
+/-- ★ … and what follows the closing quote is expanded in the surrounding context again:
+    `"$*"$*` (as a command argument) is the quoted join of the positional parameters glued to the
+    first of the parameters as separate fields — for every environment and IFS. -/
+theorem star_after_dquote_splits (env : Env) :
+    den (expandWord env true
+      (.cons (.dq (.cons (.param .star .none) .nil)) (.cons (.unq (.param .star .none)) .nil)))
+    = (env, .ok (joinFields [quoteField (joinBySep env (env.pos.map toField))] (env.pos.map toField))) := by
+  rw [initial_expansion_eq_posix]
+  simp [posixWord, posixWordUnit, posixWordGo, posixTextGo, posixTextUnit, posixParam, resolve,
+    Text.isNil, paramFields, valueFields, joinFields_nil_left]
+
+/-- the same inside: `"${u-"$*"}$*"` with `u` unset — the nested quotes do not turn splitting on
+    for the rest of the outer quotes (both `$*` are joined) -/
+theorem star_after_nested_dquote_joined (env : Env) (hu : env.getValue "u" = none) :
+    den (expandWord env true
+      (.cons (.dq (.cons (.param (.var "u") (.switch .unset .default
+              (.cons (.dq (.cons (.param .star .none) .nil)) .nil)))
+            (.cons (.param .star .none) .nil))) .nil))
+    = (env, .ok [quoteField
+        ((quoteField (joinBySep env (env.pos.map toField))).map
+            (fun c => if c.origin = .literal then { c with origin := .softExpansion } else c)
+          ++ joinBySep env (env.pos.map toField))]) := by
+  rw [initial_expansion_eq_posix]
+  simp [posixWord, posixWordUnit, posixWordGo, posixTextGo, posixTextUnit, posixParam, resolve, hu,
+    Text.isNil, paramFields, valueFields, joinFields, PState.of, Vacancy.of, PState.ofVacancy,
+    posixTable, soften, quoteField, quoteChar]
+
+example :
+    (expandWordMultiple
+      { vars := [("IFS", { value := some (.scalar []), readOnly := false })],
+        pos := ["a".toList, "b".toList], nounset := false, exitStatus := 0, arg0 := [] }
+      (.cons (.dq (.cons (.param .star .none) .nil)) (.cons (.unq (.param .star .none)) .nil))).2
+    = .ok [['a', 'b', 'a'], ['b']] := by rfl
+
 /-! ## `read` -/
 
 /-- ☆ The `read` built-in's assignment (`assigning::assign`: fields from the split machine, the
@@ -398,6 +663,33 @@ theorem single_quote_exact (env : Env) (s : List Char) :
 theorem read_eq_specRead (ifs : Ifs) (text : List AttrChar) (nBefore : Nat) :
     readAssign ifs text nBefore = specRead ifs text nBefore :=
   readAssign_eq_specRead ifs text nBefore
+
+/-- "`read` splits by the same IFS rules": variable `k` (not the last) receives field `k` of the very
+    splitting that word expansion uses (`split_into`), quote-removed — empty if there is none … -/
+theorem read_field_k (ifs : Ifs) (text : List AttrChar) (n k : Nat) (hk : k < n) :
+    (readAssign ifs text n)[k]? =
+      some (removeQuotesAndStrip ((splitInto ifs text)[k]?.getD [])) :=
+  readAssign_index ifs text n k hk
+
+/-- … and the last variable receives its field when no more follow, and otherwise the line from the
+    start of that field on, without trailing IFS white space (`restTrimmed`, characterised below). -/
+theorem read_last_variable (ifs : Ifs) (text : List AttrChar) (n : Nat) :
+    (readAssign ifs text n)[n]? =
+      some (if (splitInto ifs text).length ≤ n + 1
+            then removeQuotesAndStrip ((splitInto ifs text)[n]?.getD [])
+            else removeQuotesAndStrip
+              (restTrimmed ifs text (((rangesOf ifs.classifyAttr text)[n]?.getD (0, 0)).1))) :=
+  readAssign_last ifs text n
+
+/-- `restTrimmed` is the rest of the line minus exactly its trailing IFS white space -/
+theorem restTrimmed_spec (ifs : Ifs) (text : List AttrChar) (start : Nat) :
+    ∃ tail, text.drop start = restTrimmed ifs text start ++ tail ∧
+      (∀ c ∈ tail, ifs.classifyAttr c = .ws) ∧
+      (∀ c, (restTrimmed ifs text start).getLast? = some c → ifs.classifyAttr c ≠ .ws) := by
+  obtain ⟨tail, h1, h2, h3⟩ := rstrip_spec (fun c => ifs.classifyAttr c == .ws) (text.drop start)
+  refine ⟨tail, h1, ?_, ?_⟩
+  · intro c hc; simpa using h2 c hc
+  · intro c hc; have := h3 c hc; simpa using this
 
 example : readAssign (Ifs.new [' ', ':']) ((" a: b c  ".toList).map plainChar) 1
     = ["a".toList, "b c".toList] := by decide
